@@ -37,10 +37,15 @@ func NewCol(proto string, mode collector.DecodingMode, clk collector.VerifClock,
 	return NewColEnc(proto, mode, clk, ttl, false)
 }
 
+// NumExtraElements is the NumExtraElements setting of the collecting processes built by NewCol /
+// NewColEnc (spare capacity of every decoded record's element list; 0 unless a check sets it for a
+// case). Checks run their cases one after the other.
+var NumExtraElements int
+
 // NewColEnc is NewCol with the IsEncrypted flag of the configuration set as given (no socket is
 // opened, so no certificate is needed).
 func NewColEnc(proto string, mode collector.DecodingMode, clk collector.VerifClock, ttl uint32, encrypted bool) *Col {
-	in := collector.CollectorInput{Address: "127.0.0.1:0", Protocol: proto, MaxBufferSize: 65535, TemplateTTL: ttl, DecodingMode: mode, IsEncrypted: encrypted}
+	in := collector.CollectorInput{Address: "127.0.0.1:0", Protocol: proto, MaxBufferSize: 65535, TemplateTTL: ttl, DecodingMode: mode, IsEncrypted: encrypted, NumExtraElements: NumExtraElements}
 	var cp *collector.CollectingProcess
 	var err error
 	if clk != nil {
